@@ -6,6 +6,9 @@ import Proofs.MessageCompress
 import Proofs.ParseMessageOpt
 import Proofs.ParseTsig
 import Proofs.ParseUpdate
+import Proofs.RenderExact
+import Proofs.ParseUpdateFull
+import Proofs.ParsePad
 /-!
 # C03 — messages survive render-then-parse unchanged; compression is sound
 
@@ -57,7 +60,7 @@ finished message `w`, every table entry `(suffix, off)` — every target any poi
 `off ≤ 0x3FFF`, `off < |w|`, and running the library's own name decoder (`from_wire_parser`, i.e. `fromWireAux`)
 at `off` succeeds, follows only strictly backward pointers (that is how `fromWireAux` is defined), and yields
 exactly that suffix up to ASCII case (reading of DESIGN §6 "Case and compression"). -/
-theorem compression_sound (m : Message) (lim : Nat) (pt : Bool) (r : RState) (hok : m.namesOk)
+theorem compression_sound (m : Message) (lim : Nat) (pt : Bool) (r : RState) (hok : m.namesOk eqvSpec)
     (h : m.render lim pt = .ok r) :
     ∀ p ∈ r.tbl, p.2 ≤ Consts.maxPtr ∧ p.2 < r.out.length ∧
       ∃ n fwd, fromWireAux r.out r.out.length p.2 p.2 p.2 [] = .ok (n, fwd) ∧ lowerName n = lowerName p.1 := by
@@ -72,13 +75,13 @@ theorem compression_sound (m : Message) (lim : Nat) (pt : Bool) (r : RState) (ho
 (b) keeps the table sound, and (c) decodes, from the offset it was written at and following only pointers into
 the earlier part of the buffer, to the name up to ASCII case — whatever the offset (also beyond 0x3FFF, where
 nothing new is remembered).  By induction over the rendering this covers every pointer of the message. -/
-theorem compression_sound_name (out : Bytes) (t : CTable) (n : Name) (origin : Option Name) (hok : NameOk origin n)
+theorem compression_sound_name (out : Bytes) (t : CTable) (n : Name) (origin : Option Name) (hok : NameOk eqvSpec origin n)
     (hs : TableSound NameEqv out t) :
     ∃ ext new full, toWireC out t n origin = .ok (out ++ ext, t ++ new) ∧ wireName n origin = some full ∧
       TableSound NameEqv (out ++ ext) (t ++ new) ∧
       ∃ got fwd, fromWireAux (out ++ ext) (out ++ ext).length out.length out.length out.length [] = .ok (got, fwd)
         ∧ fwd = (out ++ ext).length ∧ lowerName got = lowerName full := by
-  obtain ⟨full, hw, hwf, habs⟩ := hok
+  obtain ⟨full, hw, hwf, habs, _⟩ := hok
   obtain ⟨h1, ls, hd, hr⟩ := cLoop_sound out t full hwf habs hs
   have hfw := hd.fwd_le
   refine ⟨(cLoop out.length t full).1, (cLoop out.length t full).2, full, ?_, hw, h1, ls ++ [[]],
@@ -89,23 +92,23 @@ theorem compression_sound_name (out : Bytes) (t : CTable) (n : Name) (origin : O
   · simp
 
 /-- non-vacuity of `compression_sound`: a response with a shared suffix and a case-differing repeat has legal names -/
-example : ({ id := 1, flags := 32768, q := [{ name := [[119,119,119],[101,120],[]], rdclass := 1, rdtype := 2 }], an := [{ name := [[87,87,87],[69,88],[]], rdclass := 1, rdtype := 2, ttl := 5, rdatas := [.name1 [[110,115],[101,120],[]]] }] } : Message).namesOk := by
+example : ({ id := 1, flags := 32768, q := [{ name := [[119,119,119],[101,120],[]], rdclass := 1, rdtype := 2 }], an := [{ name := [[87,87,87],[69,88],[]], rdclass := 1, rdtype := 2, ttl := 5, rdatas := [.name1 [[110,115],[101,120],[]]] }] } : Message).namesOk eqvSpec := by
   refine ⟨?_, by intro t ht; simp at ht⟩
   intro it hit
   simp [Message.items] at hit
   rcases hit with rfl | rfl
-  · exact ⟨_, rfl, by refine ⟨?_, ?_, ?_⟩ <;> decide, rfl⟩
-  · refine ⟨⟨_, rfl, by refine ⟨?_, ?_, ?_⟩ <;> decide, rfl⟩, ?_⟩
+  · exact ⟨_, rfl, by refine ⟨?_, ?_, ?_⟩ <;> decide, rfl, trivial⟩
+  · refine ⟨⟨_, rfl, by refine ⟨?_, ?_, ?_⟩ <;> decide, rfl, trivial⟩, ?_⟩
     intro rd hrd
     simp at hrd; subst hrd
-    exact ⟨_, rfl, by refine ⟨?_, ?_, ?_⟩ <;> decide, rfl⟩
+    exact ⟨_, rfl, by refine ⟨?_, ?_, ?_⟩ <;> decide, rfl, trivial⟩
 
 /-- "Rendering any well-formed message … and parsing the bytes yields a message with the same id, flags,
 opcode, rcode … and the same records in every section (equal to the original whenever it uses absolute names)".
 Full statement: for every well-formed message `m` (any opcode incl. UPDATE, with OPT/TSIG, with or without
 origin), `parseMessage cfg (m.toWire lim false) = .ok m'` with `m'` equal to `m` as the library compares messages.
-Proved here (`MsgOkT`) for: absolute names (no origin), no padding request, opcode other than UPDATE; with or
-without the EDNS OPT record (any version/flags/extended-rcode bits in its ttl, any payload, any option list); with
+Proved here (`MsgOkP`) for: absolute names (no origin), opcode other than UPDATE (for UPDATE see `update_forms`);
+with or without the EDNS OPT record (any version/flags/extended-rcode bits in its ttl, any payload, any option list); with
 or without a TSIG record (any key name — compressible or not —, algorithm name, time, fudge, MAC octets, original
 id, error, other data; a key being available to the parser, MAC validation itself abstract); arbitrary id/flags (hence opcode and header rcode), any number of questions and of record sets per section, any
 mix of opaque, NS/CNAME/PTR-, MX- and SOA-shaped RDATA, any owner-name sharing pattern — every name may be
@@ -116,36 +119,75 @@ original order with their rdatas in the original order, the parser consuming exa
 `TrailingJunk`), with `one_rr_per_rrset=False` and any `ignore_trailing`.
 The EDNS state (`Message.opt`: version, flags, extended rcode, payload, options) comes back identical, hence so
 do `rcode()`, `edns`, `ednsflags`, `payload`, `options`.
-The TSIG record comes back with its owner up to ASCII case and every other field identical.
-What is missing for the full statement: the padding option (`pad ≠ 0` adds a PADDING option to the parsed OPT),
-update messages carrying OPT/TSIG (`update_forms` covers updates without them) and relativisation against an origin
-are covered by the correspondence check and the direct oracle only; so is `render_parse_render` (re-rendering
-the parsed message reproduces the bytes), which follows from this theorem only where the parsed message is
-identical to the original (no case-variant repeats). -/
-theorem parse_render_partial (m : Message) (lim : Nat) (w : Bytes) (hok : MsgOkT m) (h : m.toWire lim false = .ok w)
+The TSIG record comes back with its owner up to ASCII case and every other field identical.  When padding was
+requested (`pad ≠ 0`) the parsed OPT carries the original options followed by one PADDING option of fewer than `pad`
+zero octets (`OptPadRel`); otherwise it is the original OPT.
+What is missing for the full statement: relativisation against an origin (rendering/parsing with relative names) is
+covered by the correspondence check and the direct oracle only. -/
+theorem parse_render_partial (m : Message) (lim : Nat) (w : Bytes) (hok : MsgOkP eqvSpec m) (h : m.toWire lim false = .ok w)
     (cfg : PCfg) (horg : cfg.origin = none) (hnorr : cfg.oneRRPerRRset = false) (hkey : cfg.hasKey = true) :
-    ∃ m', parseMessage cfg w = .ok m' ∧ m'.simT m ∧ m'.id = m.id ∧ m'.flags = m.flags ∧ m'.opcode = m.opcode ∧
-      m'.opt = m.opt ∧ m'.rcode = m.rcode ∧ m'.edns = m.edns := by
-  obtain ⟨m', hp, hs⟩ := parse_toWire_full m lim w hok h cfg horg hnorr hkey
-  have ho : m'.opt = m.opt := hs.2.2.2.2.2.2.1
-  refine ⟨m', hp, hs, hs.1, hs.2.1, ?_, ho, ?_, ?_⟩
+    ∃ m' opt', parseMessage cfg w = .ok m' ∧ m'.simT eqvSpec { m with opt := opt' } ∧ OptPadRel m.pad m.opt opt' ∧
+      m'.id = m.id ∧ m'.flags = m.flags ∧ m'.opcode = m.opcode ∧ m'.rcode = m.rcode ∧ m'.edns = m.edns ∧
+      (m.pad = 0 → m'.opt = m.opt) := by
+  obtain ⟨m', opt', hp, hs, hr⟩ := parse_toWire_pad m lim w hok h cfg horg hnorr hkey
+  have ho : m'.opt = opt' := hs.2.2.2.2.2.2.1
+  refine ⟨m', opt', hp, hs, hr, hs.1, hs.2.1, ?_, ?_, ?_, ?_⟩
   · simp [Message.opcode, hs.2.1]
-  · simp [Message.rcode, Message.ednsflags, hs.2.1, ho]
-  · simp [Message.edns, ho]
+  · simp only [Message.rcode, Message.ednsflags, hs.2.1, ho]
+    cases hmo : m.opt with
+    | none =>
+      cases hop : opt' with
+      | none => rfl
+      | some o' => rw [hmo, hop] at hr; exact hr.elim
+    | some o =>
+      cases hop : opt' with
+      | none => rw [hmo, hop] at hr; exact hr.elim
+      | some o' =>
+        rw [hmo, hop] at hr
+        rcases hr with ⟨_, rfl⟩ | ⟨_, k, _, rfl⟩ <;> rfl
+  · simp only [Message.edns, ho]
+    cases hmo : m.opt with
+    | none =>
+      cases hop : opt' with
+      | none => rfl
+      | some o' => rw [hmo, hop] at hr; exact hr.elim
+    | some o =>
+      cases hop : opt' with
+      | none => rw [hmo, hop] at hr; exact hr.elim
+      | some o' =>
+        rw [hmo, hop] at hr
+        rcases hr with ⟨_, rfl⟩ | ⟨_, k, _, rfl⟩ <;> rfl
+  · intro hpad
+    rw [ho]
+    cases hmo : m.opt with
+    | none =>
+      cases hop : opt' with
+      | none => rfl
+      | some o' => rw [hmo, hop] at hr; exact hr.elim
+    | some o =>
+      cases hop : opt' with
+      | none => rw [hmo, hop] at hr; exact hr.elim
+      | some o' =>
+        rw [hmo, hop] at hr
+        rcases hr with ⟨_, rfl⟩ | ⟨hne, _⟩
+        · rfl
+        · exact absurd hpad hne
 
 /-- non-vacuity of `parse_render_partial`: a response with a question, an NS record set of two records whose
 owner repeats the question name in another case and whose targets share its suffix, and an opaque A record set -/
-example : MsgOkT { id := 7, flags := 33152, opt := some { ttl := 16809984, payload := 1232, options := [(10, [1,2,3,4,5,6,7,8])] }, tsig := some { name := [[107],[101,120],[]], alg := [[104,109,97,99],[]], time := 1700000000, fudge := 300, mac := [1,2,3,4], origId := 7, error := 0, other := [] }, q := [{ name := [[119,119,119],[101,120],[]], rdclass := 1, rdtype := 2 }], an := [{ name := [[87,87,87],[69,88],[]], rdclass := 1, rdtype := 2, ttl := 5, rdatas := [.name1 [[110,115],[101,120],[]], .name1 [[110,116],[101,120],[]]] }], ad := [{ name := [[110,115],[101,120],[]], rdclass := 1, rdtype := 1, ttl := 5, rdatas := [.raw [192,0,2,1]] }] } := by
-  have wf : ∀ n : Name, n ∈ [[[119,119,119],[101,120],[]], [[87,87,87],[69,88],[]], [[110,115],[101,120],[]], [[110,116],[101,120],[]]] → NameOk none n := by
+example : MsgOkP eqvSpec { id := 7, flags := 33152, pad := 16, opt := some { ttl := 16809984, payload := 1232, options := [(10, [1,2,3,4,5,6,7,8])] }, tsig := some { name := [[107],[101,120],[]], alg := [[104,109,97,99],[]], time := 1700000000, fudge := 300, mac := [1,2,3,4], origId := 7, error := 0, other := [] }, q := [{ name := [[119,119,119],[101,120],[]], rdclass := 1, rdtype := 2 }], an := [{ name := [[87,87,87],[69,88],[]], rdclass := 1, rdtype := 2, ttl := 5, rdatas := [.name1 [[110,115],[101,120],[]], .name1 [[110,116],[101,120],[]]] }], ad := [{ name := [[110,115],[101,120],[]], rdclass := 1, rdtype := 1, ttl := 5, rdatas := [.raw [192,0,2,1]] }] } := by
+  have wf : ∀ n : Name, n ∈ [[[119,119,119],[101,120],[]], [[87,87,87],[69,88],[]], [[110,115],[101,120],[]], [[110,116],[101,120],[]]] → NameOk eqvSpec none n := by
     intro n hn
     simp at hn
-    rcases hn with rfl | rfl | rfl | rfl <;> exact ⟨_, rfl, by refine ⟨?_, ?_, ?_⟩ <;> decide, rfl⟩
-  refine ⟨rfl, by decide, by decide, by decide, ?_, rfl, ?_, ?_, ?_, ?_, ?_, ?_, ?_, ?_, by decide⟩
+    rcases hn with rfl | rfl | rfl | rfl <;> exact ⟨_, rfl, by refine ⟨?_, ?_, ?_⟩ <;> decide, rfl, trivial⟩
+  refine ⟨⟨rfl, by decide, by decide, by decide, ?_, rfl, ?_, ?_, ?_, ?_, ?_, ?_, ?_, ?_, by decide⟩, ?_⟩
+  rotate_right
+  · intro o ho; simp at ho; subst ho; decide
   · intro o ho; simp at ho; subst ho
     refine ⟨by decide, by decide, ?_, by decide, trivial⟩
     intro p hp; simp at hp; subst hp; exact ⟨by decide, by decide⟩
   · intro t ht; simp at ht; subst ht
-    exact ⟨⟨_, rfl, by refine ⟨?_, ?_, ?_⟩ <;> decide, rfl⟩, by refine ⟨?_, ?_, ?_⟩ <;> decide, rfl, by decide, by decide,
+    exact ⟨⟨_, rfl, by refine ⟨?_, ?_, ?_⟩ <;> decide, rfl, trivial⟩, by refine ⟨?_, ?_, ?_⟩ <;> decide, rfl, by decide, by decide,
       by decide, by decide, by decide, by decide, by decide⟩
   · intro r hr; simp at hr; subst hr
     exact ⟨wf _ (by simp), by decide, by decide, rfl, rfl, rfl, rfl⟩
@@ -164,39 +206,101 @@ example : MsgOkT { id := 7, flags := 33152, opt := some { ttl := 16809984, paylo
   · simp
   · simp
 
-/-- "dynamic update with its delete/prerequisite forms": a dynamic update message (opcode UPDATE; one zone entry of type
-SOA and a non-meta class; every other record set one of: an ordinary record — add, prerequisite with rdata —, a
-delete-RR record (class NONE, outside the prerequisite section, rdata kept), or a class/type-only record with
-RDLENGTH 0 — delete-rrset / delete-name (class ANY) and the "present"/"absent" prerequisites (class ANY / NONE in the
-prerequisite section)), rendered and parsed, comes back with every record set in place: same owner (up to ASCII case),
-same (zone class, `deleting` = ANY/NONE) pair, same type, ttl and rdata, one record set per record as the parser
-always builds updates.  Absolute names, no OPT/TSIG (`UMsgOk`). -/
-theorem update_forms (m : Message) (lim : Nat) (w : Bytes) (hok : UMsgOk m) (h : m.toWire lim false = .ok w)
-    (cfg : PCfg) (horg : cfg.origin = none) :
-    ∃ m', parseMessage cfg w = .ok m' ∧ m'.sim m ∧ m'.opcode = ConstsC03.opUPDATE := by
-  obtain ⟨m', hp, hs⟩ := parse_toWire_update m lim w hok h cfg horg
+/-- "… (equal to the original whenever it uses absolute names)": *exact* form of `parse_render_partial`.  Guard, stated
+precisely: the message is well formed as above and all its (absolute) names — owners, NS/CNAME/PTR/MX/SOA rdata names,
+the TSIG owner — lie in a set `S` of names that contains the root, is closed under taking suffixes, and in which no two
+members are equal only up to ASCII case (`CaseClosed S`, the message-wide `CaseConsistent` of DESIGN §6).  Then parsing
+the rendering returns the message itself — every field of every record set identical, names byte for byte — except
+that `request_payload`, which is not on the wire, is 0. -/
+theorem parse_render_exact (S : Name → Prop) (hS : CaseClosed S) (m : Message) (lim : Nat) (w : Bytes)
+    (hok : MsgOkT (exactSpec S hS) m) (h : m.toWire lim false = .ok w)
+    (cfg : PCfg) (horg : cfg.origin = none) (hnorr : cfg.oneRRPerRRset = false) (hkey : cfg.hasKey = true) :
+    parseMessage cfg w = .ok { m with requestPayload := 0 } :=
+  parse_toWire_exact m lim w hok h cfg horg hnorr hkey
+
+/-- "rendering the parsed message again without record shuffling reproduces the bytes exactly" — under the guard of
+`parse_render_exact` (case-consistent names) and an explicit size limit (`max_size ≠ 0`; with `max_size = 0` the limit
+would come from `request_payload`, which the parsed message does not carry): the parsed message renders, at the same
+limit, to exactly the octets it was parsed from.
+Without the guard the statement is still true of the implementation (the parser returns a compressed name in the case
+of the occurrence it was compressed against, which is what is on the wire) and is covered by the correspondence check
+and the direct oracle; the proof here goes through exactness of the round trip. -/
+theorem render_parse_render (S : Name → Prop) (hS : CaseClosed S) (m : Message) (lim : Nat) (w : Bytes)
+    (hok : MsgOkT (exactSpec S hS) m) (hlim : lim ≠ 0) (h : m.toWire lim false = .ok w)
+    (cfg : PCfg) (horg : cfg.origin = none) (hnorr : cfg.oneRRPerRRset = false) (hkey : cfg.hasKey = true) :
+    ∃ m', parseMessage cfg w = .ok m' ∧ m'.toWire lim false = .ok w := by
+  refine ⟨_, parse_toWire_exact m lim w hok h cfg horg hnorr hkey, ?_⟩
+  rw [toWire_requestPayload m lim false 0 hlim]
+  exact h
+
+/-- non-vacuity of `parse_render_exact` / `render_parse_render`: a response whose names share suffixes (so that they
+are compressed) in one consistent spelling -/
+example : ∃ (S : Name → Prop) (hS : CaseClosed S), MsgOkT (exactSpec S hS) { id := 7, flags := 33152, q := [{ name := [[119,119,119],[101,120],[]], rdclass := 1, rdtype := 2 }], an := [{ name := [[119,119,119],[101,120],[]], rdclass := 1, rdtype := 2, ttl := 5, rdatas := [.name1 [[110,115],[101,120],[]]] }] } := by
+  refine ⟨fun x => x ∈ [[[119,119,119],[101,120],[]], [[110,115],[101,120],[]], [[101,120],[]], [[]]],
+    caseClosed_of_list _ (by decide) (by decide) (by decide), ?_⟩
+  have wf : ∀ n : Name, n ∈ [[[119,119,119],[101,120],[]], [[110,115],[101,120],[]]] →
+      NameOk (exactSpec (fun x => x ∈ [[[119,119,119],[101,120],[]], [[110,115],[101,120],[]], [[101,120],[]], [[]]])
+        (caseClosed_of_list _ (by decide) (by decide) (by decide))) none n := by
+    intro n hn
+    simp at hn
+    rcases hn with rfl | rfl <;> exact ⟨_, rfl, by refine ⟨?_, ?_, ?_⟩ <;> decide, rfl, by show _ ∈ _; decide⟩
+  refine ⟨rfl, by decide, by decide, by decide, by intro o ho; simp at ho, rfl, by intro t ht; simp at ht, ?_, ?_, ?_, ?_, ?_, ?_, ?_, by decide⟩
+  · intro r hr; simp at hr; subst hr
+    exact ⟨wf _ (by simp), by decide, by decide, rfl, rfl, rfl, rfl⟩
+  · intro r hr; simp at hr; subst hr
+    refine ⟨wf _ (by simp), by decide, by decide, by decide, by decide, rfl, by simp, ?_, by decide, by decide⟩
+    intro rd hrd; simp at hrd; subst hrd
+    exact ⟨wf _ (by simp), by decide, by decide⟩
+  · intro r hr; simp at hr
+  · intro r hr; simp at hr
+  · simp
+  · simp
+  · simp
+
+/-- "dynamic update with its delete/prerequisite forms" — `parse_render_partial` lifted to opcode UPDATE.  Guard
+(`UMsgOkT` of the canonical form): one zone entry of type SOA and a non-meta class; every other record set, *after
+canonicalisation*, is one of: an ordinary record (add, prerequisite with rdata), a delete-RR record (class NONE outside
+the prerequisite section, rdata kept), or a class/type-only record with RDLENGTH 0 (delete-rrset / delete-name with
+class ANY; the "present"/"absent" prerequisites with class ANY / NONE in the prerequisite section); one record per
+record set; with or without OPT and TSIG, no padding, absolute names.  `canonUpdate zc` rewrites a record set whose
+wire class is ANY/NONE into the parser's representation (class `zc` = the zone's class, `deleting` = ANY/NONE) and
+leaves every other record set alone.  For *every* such message — whether its delete/prerequisite forms are in the
+parser's representation or in the one the `UpdateMessage` API builds (`rdclass = ANY/NONE`: `present(name[,type])`,
+`absent(name[,type])`, `delete(name)`) — parsing the rendering returns the canonical form, up to ASCII case of
+compressed names.  The only update forms for which the parsed message is not the original (as Python objects) are
+therefore exactly those with `canonUpdate m ≠ m`: the recorded finding
+`C03/parse_render/library-eq/update-metaclass-form`. -/
+theorem update_forms (m : Message) (zc lim : Nat) (w : Bytes) (hok : UMsgOkT eqvSpec (m.canonUpdate zc))
+    (h : m.toWire lim false = .ok w) (cfg : PCfg) (horg : cfg.origin = none) (hkey : cfg.hasKey = true) :
+    ∃ m', parseMessage cfg w = .ok m' ∧ m'.simT eqvSpec (m.canonUpdate zc) ∧ m'.opcode = ConstsC03.opUPDATE := by
+  obtain ⟨m', hp, hs⟩ := parse_toWire_update_canon m zc lim w hok h cfg horg hkey
   refine ⟨m', hp, hs, ?_⟩
   have := hok.isUpd
   simp only [isUpdate, beq_iff_eq] at this
-  simp [Message.opcode, hs.2.1, this]
+  have hf : (m.canonUpdate zc).flags = m.flags := rfl
+  simp [Message.opcode, hs.2.1, hf] at this ⊢
+  exact this
 
-/-- … and the representation the `UpdateMessage` API builds for `present(name[, type])`, `absent(name[, type])` and
-`delete(name)` (RRsets whose own class is ANY/NONE) renders to exactly the same octets as the parser's
-representation `canonUpdate` of the same records, whatever the limit and mode — so the round trip of an API-built
-update yields its canonical form (the two differ as Python objects: known finding
-`C03/parse_render/library-eq/update-metaclass-form`). -/
+/-- … and a message already in the parser's representation (`UMsgOkT m` itself) is its own canonical form: it comes
+back as itself. -/
+theorem update_forms_canonical (m : Message) (lim : Nat) (w : Bytes) (hok : UMsgOkT eqvSpec m)
+    (h : m.toWire lim false = .ok w) (cfg : PCfg) (horg : cfg.origin = none) (hkey : cfg.hasKey = true) :
+    ∃ m', parseMessage cfg w = .ok m' ∧ m'.simT eqvSpec m :=
+  parse_toWire_update_full m lim w hok h cfg horg hkey
+
+/-- … the API's representation renders to exactly the same octets as the canonical one, whatever the limit and mode -/
 theorem update_forms_api (m : Message) (zc lim : Nat) (pt : Bool) :
     (m.canonUpdate zc).toWire lim pt = m.toWire lim pt :=
   toWire_canonUpdate m zc lim pt
 
 /-- non-vacuity of `update_forms`: zone `ex.` IN, prerequisite "name in use" (ANY ANY), an add, a delete-rrset,
 a delete-rr -/
-example : UMsgOk { id := 9, flags := 10240, q := [{ name := [[101,120],[]], rdclass := 1, rdtype := 6 }], an := [{ name := [[97],[101,120],[]], rdclass := 1, rdtype := 255, deleting := some 255 }], au := [{ name := [[97],[101,120],[]], rdclass := 1, rdtype := 1, ttl := 300, rdatas := [.raw [10,0,0,1]] }, { name := [[98],[101,120],[]], rdclass := 1, rdtype := 1, deleting := some 255 }, { name := [[99],[101,120],[]], rdclass := 1, rdtype := 1, deleting := some 254, rdatas := [.raw [10,0,0,2]] }] } := by
-  have wf : ∀ n : Name, n ∈ [[[101,120],[]], [[97],[101,120],[]], [[98],[101,120],[]], [[99],[101,120],[]]] → NameOk none n := by
+example : UMsgOkT eqvSpec { id := 9, flags := 10240, q := [{ name := [[101,120],[]], rdclass := 1, rdtype := 6 }], an := [{ name := [[97],[101,120],[]], rdclass := 1, rdtype := 255, deleting := some 255 }], au := [{ name := [[97],[101,120],[]], rdclass := 1, rdtype := 1, ttl := 300, rdatas := [.raw [10,0,0,1]] }, { name := [[98],[101,120],[]], rdclass := 1, rdtype := 1, deleting := some 255 }, { name := [[99],[101,120],[]], rdclass := 1, rdtype := 1, deleting := some 254, rdatas := [.raw [10,0,0,2]] }] } := by
+  have wf : ∀ n : Name, n ∈ [[[101,120],[]], [[97],[101,120],[]], [[98],[101,120],[]], [[99],[101,120],[]]] → NameOk eqvSpec none n := by
     intro n hn
     simp at hn
-    rcases hn with rfl | rfl | rfl | rfl <;> exact ⟨_, rfl, by refine ⟨?_, ?_, ?_⟩ <;> decide, rfl⟩
-  refine ⟨rfl, by decide, by decide, by decide, rfl, rfl, ⟨_, rfl, ⟨wf _ (by simp), by decide, by decide, rfl, rfl, rfl, rfl⟩, by decide, by decide, ?_, ?_, ?_⟩, by decide⟩
+    rcases hn with rfl | rfl | rfl | rfl <;> exact ⟨_, rfl, by refine ⟨?_, ?_, ?_⟩ <;> decide, rfl, trivial⟩
+  refine ⟨rfl, by decide, by decide, by decide, by intro o ho; simp at ho, rfl, by intro t ht; simp at ht, ⟨_, rfl, ⟨wf _ (by simp), by decide, by decide, rfl, rfl, rfl, rfl⟩, by decide, by decide, ?_, ?_, ?_⟩, by decide⟩
   · intro r hr; simp at hr; subst hr
     exact ⟨wf _ (by simp), by decide, by decide, Or.inr ⟨rfl, rfl, rfl, rfl, Or.inl rfl⟩⟩
   · intro r hr; simp at hr
